@@ -522,6 +522,61 @@ def record_typestate(ctx, cr):
             ctx.lost(srule, "%s:%s" % (srule, EVAL + name), "function missing")
 
 
+def delegates_preserve(ctx, cr):
+    """Every RecordTracer::end_record that hands the record on to a parent tracer hands on the SAME record: either the incoming value
+    itself, or — the one rewriting wrapper, ResolvedParameterContext, which stamps the call site's message on the called rule's
+    RuleCheck — a record of the same variant whose name and status are the incoming record's name and status.  Otherwise the tree
+    shows a status that is not the one the evaluator computed and returned."""
+    rule = "R-C02-record-status"
+    RT = "rules::RecordType"
+    vn = [v["name"] for v in cr.adts[RT]["variants"]] if RT in cr.adts else []
+    keys = [k for k in cr.fns if k.endswith("as rules::RecordTracer>::end_record")]
+    n_del = 0
+    for k in sorted(keys):
+        f = cr.fns[k]
+        seen = []
+
+        class H(ai.Hooks):
+            def call(self, a, st, term, callee, args):
+                d = M.norm_path(callee.get("decl", ""))
+                if d.endswith("RecordTracer::end_record") and st.top is st.frames[0] and len(args) >= 3:
+                    seen.append(a.resolve(st, args[2]))
+                    return [(("enum", ai.RESULT, 0, (("tuple", ()),)), st.mon), (("enum", ai.RESULT, 1, (("sym", "TRACER_ERR"),)), st.mon)]
+                return None
+        a = ai.AI(cr, H())
+        try:
+            a.run(k, mon=Mon())
+        except ai.Undecided as e:
+            ctx.ob(rule, "%s:delegate-preserves:%s" % (rule, k), False, "undecided %s" % e, fn=f)
+            continue
+        ctx.states += a.n_states
+        if not seen:
+            continue       # the terminal tracer (RecordTracker) stores the record; decided by record_typestate
+        n_del += 1
+        bad = []
+        for v in seen:
+            if v == ("sym", "arg3"):
+                continue
+            if v[0] == "enum" and v[1] == RT:
+                payload = v[3][0] if v[3] else None
+                name = vn[v[2]]
+                if payload is not None and payload[0] == "sym" and payload[1] == "arg3@%d.0" % v[2]:
+                    continue       # same variant, same payload
+                if payload is not None and payload[0] == "enum" and str(payload[1]).endswith("NamedStatus"):
+                    flds = [x["name"] for x in cr.adts[payload[1]]["variants"][0]["fields"]]
+                    vals = dict(zip(flds, payload[3]))
+                    nm, stt = ai.fmt_val(vals.get("name")), ai.fmt_val(vals.get("status"))
+                    if "arg3@%d.0.%d" % (v[2], flds.index("name")) in nm and "arg3@%d.0.%d" % (v[2], flds.index("status")) in stt:
+                        continue
+                    bad.append("%s is rebuilt with name %s and status %s instead of the incoming record's" % (name, nm[:30], stt[:30]))
+                    continue
+            bad.append("hands on %s" % ai.fmt_val(v, cr)[:80])
+        ctx.ob(rule, "%s:delegate-preserves:%s" % (rule, k.split(" as ")[0].lstrip("<")), not bad, "; ".join(sorted(set(bad))[:2]) or "%d delegations, record (or its name and status) unchanged" % len(seen), fn=f,
+               sample={"tracer": k, "delegations": len(seen)} if "ResolvedParameterContext" in k else None)
+    if n_del < 4:
+        ctx.lost(rule, rule + ":delegate-preserves:floor", "delegating end_record implementations: %d (floor 4)" % n_del)
+
+
 def run(ctx):
     cr = ctx.lib
     eval_rules_file(ctx, cr)
@@ -534,8 +589,9 @@ def run(ctx):
     rule_status(ctx, cr)
     status_and(ctx, cr)
     record_typestate(ctx, cr)
+    delegates_preserve(ctx, cr)
     ctx.assumptions += [
         "child evaluations may return any of PASS/FAIL/SKIP/Err independently (over-approximation)",
-        "the RecordTracer implementations (RootScope/BlockScope/ValueScope) store what they are given: checked separately as typestate of the callers only",
+        "the terminal RecordTracer (RecordTracker) stores what it is given; the delegating tracers are decided to hand the record on unchanged",
         "that the printed tree contains the right children for arbitrary programs is behavioural and not claimed",
     ]
